@@ -18,16 +18,16 @@ PARTIAL = " PARTIAL: rounding-error bounds and the identification of the recursi
 
 TABLE = {
     "C01": ("Lean refinement proof of the H recursion + bitwise correspondence + mpmath oracle",
-            "Proved for every arithmetic (hence IEEE doubles) and all sizes: the five-step recursion stores at each wedge coordinate a value that depends on the coordinate and beta only (HKernel.runH_refines/pure/size_indep); d/D assembly formula; eps = generated eps. The model is the code: tables, H (from poisoned workspaces), Euler phases, complex powers, fill_d, fill_D agree bit for bit on every generated case." + PARTIAL,
+            "Proved for every arithmetic (hence IEEE doubles) and all sizes: the five-step recursion stores at each wedge coordinate a value that depends on the coordinate and beta only (HKernel.runH_refines/pure/size_indep); over checked reals the recursion never divides by zero nor takes the root of a negative number for any size, and never reads the inf/nan table entries (Finite.runH_checked_eq_real, tables_read_defined); every flat index expression of _step_2.._step_5 denotes the cell/table entry the model uses, in range (FlatSteps.*); d/D assembly formula; eps = generated eps. The model is the code: tables, H (from poisoned workspaces), Euler phases, complex powers, fill_d, fill_D agree bit for bit on every generated case." + PARTIAL,
             NOTE_COMMON + "quaternionic.ToEulerPhases modelled from its source; np.sqrt(complex) a parameter. Known finding F10 (subnormal near-pole band) is reported as KNOWN-FINDING.", "DESIGN.md §7 C01"),
     "C02": ("Lean theorems (exact zeros for every arithmetic, sYlm = D column in exact arithmetic, narrow-wedge safety) + bitwise correspondence + oracle to ell=1024",
             "Proved: entries below |s| are literal zeros for every scalar type; every H lookup of spin s lies in |m'|<=|s| (so an mp_max-limited calculator is safe for every ell_max); in exact arithmetic sYlm = (-1)^s sqrt((2l+1)/4pi) D^l_{m,-s} of the same model (Routes.sYlm_eq_D_column); H refinement as C01. fill_sYlm agrees bitwise incl. |s|>=3, limited calculators, ell_min>0." + PARTIAL,
             NOTE_COMMON + "z**|s| (numpy complex power) is a parameter of the model. Known finding F10 as in C01.", "DESIGN.md §7 C02"),
     "C03": ("Lean proof that the Horner route equals the plain double sum f_lm*sYlm (exact arithmetic, all sizes/spins) + bitwise correspondence of _evaluate_Horner + sweep of every route",
-            "Proved for all ell_max, all spins (both index-walk loops, any number of iterations): evaluateHorner = sum_{l,m} f_lm * sYlmEntry over exact reals (Routes.evaluate_eq_sum_sYlm), output cell initialised by the kernel (evaluateHornerK). _evaluate_Horner agrees bit for bit with the model. Matrix route, larger calculators, Modes.evaluate, Modes.grid (spinsfast on/off), shapes and input immutability are checked by the sweep." + PARTIAL,
+            "Proved for all ell_max, all spins: evaluateHorner = sum_{l,m} f_lm * sYlmEntry over exact reals (Routes.evaluate_eq_sum_sYlm), output cell initialised by the kernel (evaluateHornerK); the incremental flat index walking of _evaluate_Horner (both 0<m<|s| jump loops, any number of iterations, any mp_max>=|s|) lands on WignerHindex(ell, ±m, -s) of the generated index functions, i.e. on the cell the model reads, in range (IndexWalk.evalH_walk_*). _evaluate_Horner agrees bit for bit with the model. Matrix route, larger calculators, Modes.evaluate, Modes.grid (spinsfast on/off), shapes and input immutability are checked by the sweep." + PARTIAL,
             NOTE_COMMON + "BLAS matmul and spinsfast are external (numerical comparison only); conj(z)**s is a parameter.", "DESIGN.md §7 C03"),
     "C04": ("Lean proof that the Horner rotation equals sum_m' f_lm' D_m'm (exact arithmetic) + bitwise correspondence of _rotate_Horner + sweep",
-            "Proved: rotateHornerEntry = sum_n f_ln * DEntry(l,n,m) over exact reals for all l (Routes.rotateHorner_eq_matrix). _rotate_Horner agrees bit for bit with the model. f'(Q)=f(RQ), composition, inverse, block norms, metadata, strategies, Modes.rotate are checked by the sweep." + PARTIAL,
+            "Proved: rotateHornerEntry = sum_n f_ln * DEntry(l,n,m) over exact reals for all l (Routes.rotateHorner_eq_matrix); the flat index walking of _rotate_Horner lands on WignerHindex(ell, ±n, m) for all sizes (IndexWalk.rotH_walk_*). _rotate_Horner agrees bit for bit with the model. f'(Q)=f(RQ), composition, inverse, block norms, metadata, strategies, Modes.rotate are checked by the sweep." + PARTIAL,
             NOTE_COMMON + "the representation property of D is not proved; matrix route uses BLAS.", "DESIGN.md §7 C04"),
     "C05": ("generated integer coefficients (translator) + Lean model of calculate bitwise-validated + Racah oracle",
             "The integer coefficient B and the radicand of A are re-translated from the source every run together with the declared return width; the model of Wigner3jCalculator.calculate / Wigner3j / clebsch_gordan (which calls the generated B) reproduces the jitted code bit for bit on exhaustive small J and branch-targeted samples to j=400; theorems in Props/C05." + PARTIAL,
@@ -51,7 +51,7 @@ TABLE = {
             "Machine-checked proof, for all integers, that the generated (re-translated every run) size functions count the documented nested-loop orderings and the index functions return positions in them (incl. symmetric folding, methods = free functions, int64 exactness up to 10^6 and a proved overflow witness beyond). Complete for the property; the translator is validated by differential execution on every run.",
             NOTE_COMMON + "numba types Python ints as int64 (modelled by the generated *_w twins); brute-force sweeps only support the failing-input search. Known finding F12 (int64 wrap beyond 1.6e6).", "DESIGN.md §7 C11"),
     "C12": ("Lean theorems on ladder coefficients/commutators (exact arithmetic) + exponential-series sweep against rotated evaluation",
-            "Sweep: exponential series of L/R generators vs evaluation at exp(tg)Q / Q exp(tg), commutators, Casimir, [ethbar,eth]=2s, annihilation, coefficients, array-level operators for every (s, ell_min<=ell_max); obligations of Props/C12." + PARTIAL,
+            "Proved over exact reals for every spin, ell, m and every weight family (Model/Operators, validated bit for bit against Modes operators and the array-level functions on ~22000 cases per run): su(2) commutators and Casimir for L and R, [ethbar,eth] = 2s incl. ell=|s|, eth/ethbar coefficients sqrt((l-s)(l+s+1)) / -sqrt((l+s)(l-s+1)), annihilation below the new |s|, NP = sqrt2 GHP, array-level = Modes-level for every ell_min, ethbar_inverse two-sided inverse on its domain. Sweep: exponential series of the generators vs evaluation at exp(tg)Q / Q exp(tg)." + PARTIAL,
             NOTE_COMMON + "generator semantics needs the representation property (not proved).", "DESIGN.md §7 C12"),
     "C13": ("Lean proof of conjugation symmetry (Routes) + sweep of Modes algebra vs evaluation",
             "Proved (exact arithmetic): the symmetry D_{-m',-m} = (-1)^{m'+m} conj D_{m',m} and sYlm = D column, which give conj(f)(Q) = conj(f(Q)) for the conjugation rule; sweep covers +,-, conjugation by every spelling, real/imag, norm, rejections, allow-list." + PARTIAL,
@@ -63,16 +63,16 @@ TABLE = {
             "The leading `if ...: raise` guards of Wigner.__init__/d/D/sYlm/rotate/evaluate/_split_workspace and Modes.index are extracted into Lean definitions on every run; theorems in Props/C15 relate them to the documented servable predicate; the extracted guards are validated against the real methods' outcome on the whole lattice; values vs a generously sized calculator; malformed constructor arguments.",
             NOTE_COMMON + "reference predicate written from the docstrings.", "DESIGN.md §7 C15"),
     "C16": ("Lean model of the Grid ufunc dispatcher + sweep of every allow-listed ufunc form vs numpy on raw arrays",
-            "Sweep over spins -3..3, shapes, every supported ufunc in ufunc/operator/method/out=/in-place form: class, spin rule, values = numpy, metadata dict fresh, rejections; obligations of Props/C16.",
+            "Lean model of Grid.__new__/__array_ufunc__/method forms (Model/Grid), validated op by op against the real class (3600 generated operations per run, 18 outcome kinds); proved for ALL spin weights and sizes: spin rule of every supported ufunc, rejections (spin mismatch, grid-shape mismatch, non-zero scalar on non-zero spin, outside allow-list, kwargs, non-integral power, odd sqrt, too few points), out=/in-place = binary form, result metadata always a fresh dict. Sweep: values = numpy on the raw arrays.",
             NOTE_COMMON + "numpy ufunc dispatch protocol assumed.", "DESIGN.md §7 C16"),
     "C17": ("Lean purity/size-independence theorems (per-rotor result is a function of that rotor) + sweep of vectorised/out=/workspace= forms, bitwise",
             "Per-rotor independence follows from runH_pure (each loop iteration recomputes H from scratch); sweep over rotor ranks 0..3, leading mode axes, out= of the documented shape, workspace=: shapes, bitwise equality with single-rotor calls, identity of the returned array, inputs untouched, no aliasing.",
             NOTE_COMMON + "numpy reshape of contiguous arrays is a view (assumed).", "DESIGN.md §7 C17"),
     "C18": ("Lean model of copy/pickle hooks + sweep of 5 copy routes x pickle protocols 0..5 with mutation of both sides",
-            "Sweep over Modes and Grid, spins -3..3, shapes, strided views, extra metadata: class, data, metadata preserved; independence under mutation of either side; obligations of Props/C18.",
+            "Lean model of __array_finalize__/__reduce__/__setstate__ (object heap with dict identities), validated against the real classes on every copy route and pickle protocol; proved: all routes preserve class/spin/keys/values/data and yield a different dict and buffer; mutations on one side are invisible on the other. Sweep: 5 routes x protocols 0..5 x mutation of both sides on Modes and Grid.",
             NOTE_COMMON + "numpy's __reduce__/__setstate__ machinery assumed.", "DESIGN.md §7 C18"),
     "C19": ("Lean theorems on conversion round trips (exact arithmetic) + evaluation/rotation sweep",
-            "Sweep: constants and vectors (real/complex, arrays) evaluate to c and v.n at all directions incl. poles, round trips, rotation of weights by conj(R) = rotation of the vector; obligations of Props/C19." + PARTIAL,
+            "Proved over exact reals: round trips of both conversions (both orders, complex vectors, along the last axis), sum_m w_m Y_1m(theta,phi) = v.n for all theta, phi and complex v with the explicit ell=1 harmonics, ell=0 analogue, reality relation for real vectors (Props/C19); conversions validated bit for bit. Sweep: evaluation through Wigner.evaluate at directions incl. poles, rotation of the weights by conj(R) = rotation of the vector." + PARTIAL,
             NOTE_COMMON + "uses Wigner.evaluate/rotate (C03/C04).", "DESIGN.md §7 C19"),
     "C20": ("generated Yindex/Ysize and Modes.index guards (translator) + Lean theorems + exhaustive construction sweep",
             "Yindex/Ysize theorems (C11) give the storage position; Modes.index guards are re-extracted every run and validated against the method; sweep over all (s, ell_min, ell_max), leading shapes, dtypes, construction forms: stored weights, zero fill, index(), truncate_ell(), views.",
